@@ -75,7 +75,9 @@ def spec_degree(fl, hedges, d):
     return core.dispatch("nan_to_num", (x,), {"nan": 0.0, "neginf": 0.0, "posinf": 1.0})
 
 
-def ob_trigger(concl, enabled, rule_enabled, batch, special, label):
+def ob_trigger(concl, enabled, rule_enabled, batch, special, label, first_enabled=None):
+    """first_enabled: the same loaded rule is triggered once before with these enabled flags (and another degree), the fuzzy outputs
+    are cleared, the flags changed to `enabled`, and the rule triggered again: what counts are the flags at the time of each trigger"""
     def run(ob):
         fl = install()
         set_mode("R")
@@ -89,7 +91,12 @@ def ob_trigger(concl, enabled, rule_enabled, batch, special, label):
 
         def rbody(v):
             dv = [v[f"d{i}"] for i in range(B)]
-            return "\n".join([PYREF, "install_abstract()", f"e = engine({enabled!r})", f"rule = fl.Rule.create({text!r}, e)",
+            warm = ["pass"]
+            if first_enabled is not None:
+                warm = ["rule.enabled = True; rule.activation_degree = 0.75; rule.trigger(fl.Minimum())",
+                        "for var in e.output_variables: var.fuzzy.clear()",
+                        f"for var in e.output_variables: var.enabled = {enabled!r}[var.name]"]
+            return "\n".join([PYREF, "install_abstract()", f"e = engine({(first_enabled if first_enabled is not None else enabled)!r})", f"rule = fl.Rule.create({text!r}, e)"] + warm + [
                               f"rule.enabled = {rule_enabled}", "imp = fl.Minimum()",
                               f"d = {('np.array(' + lit(dv) + ')') if batch else lit(dv[0])}", "d0 = np.array(d, dtype=float, copy=True)",
                               "rule.activation_degree = d", "rule.trigger(imp)",
@@ -109,8 +116,15 @@ def ob_trigger(concl, enabled, rule_enabled, batch, special, label):
         rp_leak = replay_fn(PROPERTY, label, rbody, key=LEAK_KEY)
 
         def body():
-            e = make_engine(fl, enabled)
+            e = make_engine(fl, first_enabled if first_enabled is not None else enabled)
             rule = fl.Rule.create(text, e)
+            if first_enabled is not None:
+                rule.enabled = True
+                rule.activation_degree = core.const(0.75)
+                rule.trigger(fl.Minimum())
+                for var in e.output_variables:
+                    var.fuzzy.clear()
+                    var.enabled = enabled[var.name]
             rule.enabled = rule_enabled
             imp = fl.Minimum()
             d = sym_array(ds) if batch else ds[0]
@@ -292,6 +306,8 @@ def obligations(tier, seed):
                 en = dict(all_on)
                 en[off] = False
                 obs.append((f"trigger/scalar/disabled-{off}/{nm}", ob_trigger(concl, en, True, 0, True, f"trigger/scalar/disabled-{off}/{nm}")))
+                obs.append((f"retrigger/then-disabled-{off}/{nm}", ob_trigger(concl, en, True, 0, False, f"retrigger/then-disabled-{off}/{nm}", first_enabled=all_on)))
+                obs.append((f"retrigger/then-enabled-{off}/{nm}", ob_trigger(concl, all_on, True, 0, False, f"retrigger/then-enabled-{off}/{nm}", first_enabled=en)))
             obs.append((f"trigger/rule-disabled/{nm}", ob_trigger(concl, all_on, False, 0, True, f"trigger/rule-disabled/{nm}")))
             obs.append((f"block/{nm}", ob_block(concl, f"block/{nm}")))
         if tier != "quick":
